@@ -31,4 +31,6 @@ SUBS.append(Sub("equal-size-scripts", run, kind="enum", enumerate=lambda tier: c
 SUBS.append(Sub("fill-level-scripts", run, kind="enum", enumerate=lambda tier: container.fill_level_cases(), shards=(8, 16),
                 rule="every table length 1..18, 20, 32 x fill levels {full-2, full-1, full} (all live blocks of distinct types: nine writable, seven undecodable) x 3 type orders x "
                      "scripts (add / set an absent type, replace / set / same-size-replace present ones, remove first then add); finite, enumerated", nontrivial_required=False))
+from ..core import optimised_child_sub  # noqa: E402
+SUBS.append(optimised_child_sub("C11", ["fill-level-scripts"]))
 TIME_BUDGET = {"quick": 150, "thorough": 1500}
